@@ -122,6 +122,8 @@ where
         if let Some(rx) = self.iter_rx.take() {
             drop(rx);
         }
+        #[cfg(rs_store_verif)]
+        crate::verif::pt("iter.drop", 0, 0, None, self.subscription.is_some() as i64);
         if let Some(subscription) = self.subscription.take() {
             subscription.unsubscribe();
         }
